@@ -12,7 +12,7 @@
    enters both adjacent entitled zones except the origin's, a non-master reaches the master
    (RtOracleProofs.rt_fold_send_local / rt_fold_relayed_foreign, the lemmas behind oracle clause 4). *)
 From Coq Require Import List Arith Bool PeanoNat Lia Permutation.
-From Icv Require Import Route.RtModel Route.RtProofs Route.RtOracleProofs Route.RtStepLemmas Route.RtNet
+From Icv Require Import Route.RtModel Route.RtProofs Route.RtObs Route.RtOracleProofs Route.RtStepLemmas Route.RtNet
      Route.RtSched Route.RtNetSound Route.RtInv Route.RtChain Route.RtChainSafe.
 Import ListNotations.
 
@@ -316,4 +316,39 @@ Proof.
   assert (rt_zone_of c e = Some z) as Ze.
   { destruct Hwf as [_ [_ [_ ND]]]. apply rt_zone_of_in; [assumption|lia|assumption]. }
   destruct (C e z Ze Z1) as [K|[m [K _]]]; [assumption|]. rewrite F in K. contradiction.
+Qed.
+
+(* ---------------------------------------------------------------- packaging *)
+(* finitely many deliveries (fewer than the number of endpoints, hence fewer than the rt_fuel c the bounded sweeps use)
+   and nobody processes twice *)
+Theorem rt_chain_finite_once_run : forall c links T s lz nord,
+  rt_chain_wf c -> T < length c -> rt_zone_of c s = Some lz -> rt_nord_ok c nord ->
+  forall k st', rt_sched_run rt_msg (rt_effect c links T nord) (rt_init c links T nord s lz) k st' ->
+    k < length (flat_map rt_zeps c) /\ k < rt_fuel c /\
+    (forall np st'', rt_sched_step rt_msg (rt_effect c links T nord) st' np st'' -> rt_fresh np (snd st') = true).
+Proof.
+  intros c links T s lz nord Hwf HT E Hn k st' R.
+  destruct (rt_chain_finite_once c links T nord Hwf HT Hn s lz E k st' R) as [K1 [_ [_ K2]]].
+  rewrite rt_all_eps_zeps in K1. split; [assumption|]. split; [unfold rt_fuel; lia|assumption].
+Qed.
+
+(* a decidable sufficient condition for rt_chain_wf (used for the non-vacuity examples) *)
+Definition rt_chain_wf_b (c : rt_cfg) : bool :=
+  forallb (fun z => rt_oeqb (rt_parent c z) (match z with 0 => None | S j => Some j end) && negb (rt_global c z))
+          (seq 0 (length c)) &&
+  forallb (fun zr => length (rt_zeps zr) <=? 2) c && rt_nodup_b (rt_all_eps c).
+
+Lemma rt_chain_wf_b_spec : forall c, rt_chain_wf_b c = true -> rt_chain_wf c.
+Proof.
+  intros c H. unfold rt_chain_wf_b in H. apply andb_true_iff in H. destruct H as [H H3].
+  apply andb_true_iff in H. destruct H as [H1 H2]. rewrite forallb_forall in H1, H2.
+  split; [|split; [|split]].
+  - intros z L. assert (In z (seq 0 (length c))) as I by (apply in_seq; lia). specialize (H1 z I).
+    apply andb_true_iff in H1. destruct H1 as [H1 _]. apply rt_oeqb_eq in H1. assumption.
+  - intros z L. assert (In z (seq 0 (length c))) as I by (apply in_seq; lia). specialize (H1 z I).
+    apply andb_true_iff in H1. destruct H1 as [_ H1]. apply negb_true_iff in H1. assumption.
+  - intros z. unfold rt_eps, rt_getz. destruct (nth_in_or_default z c rt_zdummy) as [K|K].
+    + apply Nat.leb_le. apply H2. assumption.
+    + rewrite K. simpl. lia.
+  - apply rt_nodup_b_NoDup. assumption.
 Qed.
